@@ -15,6 +15,7 @@ from liquid.builtin.expressions import KeywordArgument
 from liquid.builtin.expressions import PositionalArgument
 from liquid.builtin.expressions import StringLiteral
 from liquid.filter import int_arg
+from liquid.limits import to_int
 from liquid.messages import MESSAGES
 from liquid.messages import MessageText
 from liquid.messages import TranslatableFilter
@@ -447,6 +448,6 @@ def _count(val: Any) -> Optional[int]:
     if val is None or isinstance(val, bool):
         return None
     try:
-        return int(val)
+        return to_int(val)
     except ValueError:
         return None
